@@ -1,0 +1,26 @@
+//go:build verif
+
+package muxer
+
+// VerifEvent is one verification trace event of a Muxer (build tag "verif" only).
+type VerifEvent struct {
+	Ev       string
+	ProtoId  uint16
+	Response bool
+	Len      int
+	Role     ProtocolRole
+	Text     string
+	Data     []byte // payload the event is about (not retained)
+}
+
+// VerifTracer, when set, receives the verification events of every Muxer. Some
+// events are emitted while a Muxer mutex is held, so the tracer must not call
+// back into the Muxer; the "Route" event is emitted with no mutex held and the
+// tracer may block there (gate). It must be set before muxers are created.
+var VerifTracer func(m *Muxer, e VerifEvent)
+
+func (m *Muxer) verifEv(ev string, protoId uint16, response bool, length int, role ProtocolRole, text string, data []byte) {
+	if t := VerifTracer; t != nil {
+		t(m, VerifEvent{Ev: ev, ProtoId: protoId, Response: response, Len: length, Role: role, Text: text, Data: data})
+	}
+}
